@@ -10,7 +10,7 @@ package checks
 //
 //	shared roots    every shared *font.Font (6 fonts: glyf+GSUB/GPOS, CFF, CFF2 variable, gvar variable, morx, bitmap)
 //	                and every package-level variable of every repository package (listed by tools/c17gen at build time)
-//	threads         2 threads x 2 operations and 3 threads x 1 operation, over an alphabet of 9 operations that are
+//	threads         2 threads x 2 operations (thorough: 3 against 2) and 3 threads x 1 operation, over an alphabet of 9 operations that are
 //	                forced to collide (same font, same glyphs, same lazily reachable tables, same globals)
 //	exploration     every pair / triple of thread programs x every interleaving at operation granularity (explicit
 //	                states = (font, programs, schedule prefix)); transitions run the real operation
@@ -467,6 +467,11 @@ func c17Shards(tier string) []string {
 		for a := 0; a < c17nOps; a++ {
 			s = append(s, fmt.Sprintf("pair/%d/%d", fi, a))
 			s = append(s, fmt.Sprintf("triple/%d/%d", fi, a))
+			if tier == "thorough" {
+				for a2 := 0; a2 < c17nOps; a2++ {
+					s = append(s, fmt.Sprintf("pair32/%d/%d/%d", fi, a, a2))
+				}
+			}
 		}
 	}
 	s = append(s, "race")
@@ -513,6 +518,21 @@ func c17Run(tier, shard string, r *mc.Reporter) {
 					break
 				}
 				c17explore(r, cf, [][]int{{a, a2}, pb})
+			}
+		}
+	case "pair32":
+		// thorough: a thread of 3 operations against a thread of 2 operations (10 interleavings each)
+		if len(corpus.Get(cf.name).Data) > 100<<10 {
+			return
+		}
+		a, _ := strconv.Atoi(parts[2])
+		a2, _ := strconv.Atoi(parts[3])
+		for a3 := 0; a3 < c17nOps; a3++ {
+			for _, pb := range c17programs(2) {
+				if r.Expired() {
+					break
+				}
+				c17explore(r, cf, [][]int{{a, a2, a3}, pb})
 			}
 		}
 	case "triple":
@@ -614,7 +634,7 @@ func init() {
 		Assumptions: []string{"operations are atomic steps: interleavings inside an operation are not explored; a write undone before the operation returns is only seen by the free-running race detector pass (sampling)", "the state of sync.Once/sync.Mutex values is not hashed", "package-level variables are listed from the source of every repository package at build time (tools/c17gen); memory only reachable from other packages (x/text, x/image) is not monitored", "the sync.Once harness (concurrent UseSystemFonts) is only exercised by the race detector pass"},
 		Shards:      c17Shards, Run: c17Run, Replay: c17Replay,
 		MemLimit: 8 << 30,
-		Bounds:   map[string]string{"quick": "7 fonts; solo write monitor over all programs of 2 operations (all package-level variables); all pairs of 2-operation programs and all triples of 1-operation programs x all interleavings (the 800 KiB font: pairs of single operations); race pass 20 rounds x 64 goroutines", "thorough": "same exploration for all 7 fonts; race pass 200 rounds x 64 goroutines"},
+		Bounds:   map[string]string{"quick": "7 fonts; solo write monitor over all programs of 2 operations (all package-level variables); all pairs of 2-operation programs and all triples of 1-operation programs x all interleavings (the 800 KiB font: pairs of single operations); race pass 20 rounds x 64 goroutines", "thorough": "same exploration for all 7 fonts, plus every 3-operation program against every 2-operation program x 10 interleavings on the 6 small fonts; race pass 200 rounds x 64 goroutines"},
 	})
 }
 
